@@ -1,7 +1,7 @@
 //! `chan` family: mpsc / spsc / mpmc channels (C06 delivery, C07 disconnect)
 //!
 //! cfg[0] = kind (0 mpsc, 1 spsc, 2 mpmc); cfg[1] = 1: receivers drain until Err at the end;
-//! cfg[2] = 1: every sender keeps its Sender alive until all it has sent was received (a
+//! cfg[3] = 1 (mpmc): all consumers share one Receiver handle; cfg[2] = 1: every sender keeps its Sender alive until all it has sent was received (a
 //!          blocked receiver must be woken by a send, not only by the disconnect)
 //! actors: role 0 sender, role 1 receiver
 use crate::case::{Actor, Case, Op, Outcome};
@@ -73,6 +73,8 @@ enum Rx {
     Mpsc(mpsc::Receiver<Tok>),
     Spsc(spsc::Receiver<Tok>),
     Mpmc(mpmc::Receiver<Tok>),
+    /// several consumers block through one and the same Receiver handle (it is Sync)
+    MpmcShared(std::sync::Arc<mpmc::Receiver<Tok>>),
 }
 
 impl Tx {
@@ -98,6 +100,7 @@ impl Rx {
             Rx::Mpsc(r) => r.recv().map_err(|_| DISC),
             Rx::Spsc(r) => r.recv().map_err(|_| DISC),
             Rx::Mpmc(r) => r.recv().map_err(|_| DISC),
+            Rx::MpmcShared(r) => r.recv().map_err(|_| DISC),
         }
     }
     fn try_recv(&self) -> Result<Tok, i64> {
@@ -109,6 +112,7 @@ impl Rx {
             Rx::Mpsc(r) => r.try_recv().map_err(m),
             Rx::Spsc(r) => r.try_recv().map_err(m),
             Rx::Mpmc(r) => r.try_recv().map_err(m),
+            Rx::MpmcShared(r) => r.try_recv().map_err(m),
         }
     }
     fn recv_timeout(&self, d: Duration) -> Result<Tok, i64> {
@@ -121,6 +125,7 @@ impl Rx {
             // spsc has no timed receive
             Rx::Spsc(r) => r.recv().map_err(|_| DISC),
             Rx::Mpmc(r) => r.recv_timeout(d).map_err(m),
+            Rx::MpmcShared(r) => r.recv_timeout(d).map_err(m),
         }
     }
 }
@@ -185,16 +190,27 @@ pub fn run(case: &Case) -> Outcome {
     }
     txs.push(tx0);
     let mut rxs: Vec<Rx> = vec![];
-    for i in 0..n_receivers {
-        if i + 1 == n_receivers {
-            break;
+    if case.cfg(3) == 1 && kind == 2 {
+        // cfg[3] == 1: one Receiver handle shared by all consumers
+        let shared = match rx0 {
+            Rx::Mpmc(r) => std::sync::Arc::new(r),
+            _ => unreachable!(),
+        };
+        for _ in 0..n_receivers {
+            rxs.push(Rx::MpmcShared(shared.clone()));
         }
-        match &rx0 {
-            Rx::Mpmc(r) => rxs.push(Rx::Mpmc(r.clone())),
-            _ => panic!("only mpmc has several receivers"),
+    } else {
+        for i in 0..n_receivers {
+            if i + 1 == n_receivers {
+                break;
+            }
+            match &rx0 {
+                Rx::Mpmc(r) => rxs.push(Rx::Mpmc(r.clone())),
+                _ => panic!("only mpmc has several receivers"),
+            }
         }
+        rxs.push(rx0);
     }
-    rxs.push(rx0);
 
     let hold = case.cfg(2) == 1 && drain;
     let held_gave_up = std::sync::Arc::new(std::sync::atomic::AtomicBool::new(false));
@@ -570,7 +586,7 @@ pub fn strategy(g: &GenCfg, bias: u8) -> BoxedStrategy<Case> {
             for (ctx, ops) in r {
                 actors.push(Actor { ctx, role: 1, ops });
             }
-            Case { fam: "chan".into(), workers, pool, feat, cfg: vec![kind, drain, hold], actors, sched, weak: 0 }
+            Case { fam: "chan".into(), workers, pool, feat, cfg: vec![kind, drain, hold, (kind == 2 && h == 1) as i64], actors, sched, weak: 0 }
         })
     })
     .boxed()
